@@ -15,7 +15,7 @@ def other_process(src, mods):
                           capture_output=True, text=True, check=True).stdout
 
 for attempt in range(200):
-    d = tempfile.mkdtemp(dir="/tmp/hunt_c15_out")
+    d = tempfile.mkdtemp()
     src = os.path.join(d, "t.html"); mods = os.path.join(d, "mods")
     modpath = os.path.join(mods, src.lstrip("/") + ".py")
     while time.time() % 1 > 0.2:      # start early in a second
